@@ -179,6 +179,44 @@ Section Driver.
 End Driver.
 
 (* ------------------------------------------------------------------------------------------ *)
+(* a HISTORY of acquire_priv calls on one connection.  Each call comes with the behaviour the device
+   shows during that call ([dline] may differ from call to call: a transition ignored for a while and
+   granted later, a secret that is rejected and then corrected) and its target.  What one call leaves
+   to the next is the remembered level and the device — nothing else: privilege_change_count is a
+   local of acquire_priv, every call starts with an empty list of attempts. *)
+Section Calls.
+  Variable N : nat.
+  Variable factor : nat.
+  Variable stop : bool.
+  Variable parent : nat -> option nat.
+  Variable auth : nat -> bool.
+  Variable nbrs : nat -> list nat.
+  Variable matches : nat -> list nat.
+  Variable D : Type.
+  Variable dmode : D -> nat.
+
+  Definition call := ((D -> line -> D * reply) * nat)%type.
+
+  Fixpoint acquire_calls (cs : list call) (belief : option nat) (d : D)
+    : list (outcome * option nat * D * list line) :=
+    match cs with
+    | [] => []
+    | (dl, dst) :: r =>
+        let '(o, b, d', tr) := acquire N factor stop parent auth nbrs matches D dmode dl belief dst d in
+        (o, b, d', tr) :: acquire_calls r b d'
+    end.
+
+  (* remembered level and device after a history *)
+  Fixpoint calls_state (cs : list call) (belief : option nat) (d : D) : option nat * D :=
+    match cs with
+    | [] => (belief, d)
+    | (dl, dst) :: r =>
+        let '(_, b, d', _) := acquire N factor stop parent auth nbrs matches D dmode dl belief dst d in
+        calls_state r b d'
+    end.
+End Calls.
+
+(* ------------------------------------------------------------------------------------------ *)
 (* concrete tables *)
 Record plevel := mkP { p_prev : option nat; p_esc : bytes; p_deesc : bytes; p_auth : bool }.
 Definition table := list plevel.
@@ -259,14 +297,16 @@ Definition transition (t : table) (m : nat) (b : bytes) : option (nat * bool) :=
   | None => esc
   end.
 
-Definition sim_bytes (c : simcfg) (s : sim) (b : bytes) : sim * reply :=
+(* [tries]: how many passwords the dialogue takes before the device gives up and prints its prompt
+   again (IOS: 3 — "% Bad secrets"; EOS drops back to the prompt after the first bad one: 1) *)
+Definition sim_bytes_n (tries : nat) (c : simcfg) (s : sim) (b : bytes) : sim * reply :=
   if s_mute s then (s, RSilent) else
   match s_dialog s with
   | Some (tgt, n) =>
       let hid := s_hidden s ++ [b] in
       if match c_secret c with Some sec => beq b sec | None => false end
       then (mkS tgt None (s_log s) hid false, RPrompt)
-      else if 3 <=? n then (mkS (s_mode s) None (s_log s) hid false, RPrompt)
+      else if tries <=? n then (mkS (s_mode s) None (s_log s) hid false, RPrompt)
       else (mkS (s_mode s) (Some (tgt, S n)) (s_log s) hid false, RPassword)
   | None =>
       if blank b then (s, RPrompt)
@@ -283,7 +323,11 @@ Definition sim_bytes (c : simcfg) (s : sim) (b : bytes) : sim * reply :=
         end
   end.
 
+Definition sim_bytes : simcfg -> sim -> bytes -> sim * reply := sim_bytes_n 3.
+
 Definition sim_line (c : simcfg) (s : sim) (l : line) : sim * reply := sim_bytes c s (line_bytes c l).
+Definition sim_line_n (tries : nat) (c : simcfg) (s : sim) (l : line) : sim * reply :=
+  sim_bytes_n tries c s (line_bytes c l).
 
 Definition sim_start (m : nat) : sim := mkS m None [] [] false.
 
@@ -294,6 +338,24 @@ Definition run_acquire (factor : nat) (stop : bool) (c : simcfg) (order cls : li
   (belief : option nat) (src dst : nat) : outcome * option nat * sim * list line :=
   acquire (length (c_tab c)) factor stop (parent_of (c_tab c)) (auth_of (c_tab c)) (order_nbrs order)
           (fun m => nth m cls []) sim s_mode (sim_line c) belief dst (sim_start src).
+
+(* a history of calls against the simulated device: per call the transitions the device refuses
+   during that call, the device's secret, the driver's auth_secondary at that moment and the target;
+   [tries] = passwords the dialogue takes; the device (mode, pending dialogue, log) lives on *)
+Definition call_cfg := (list (nat * nat) * option bytes * bytes * nat)%type.
+
+Definition call_of (tries : nat) (t : table) (c : call_cfg) : call sim :=
+  let '(stuck, secret, sec, dst) := c in (sim_line_n tries (mkC t stuck [] secret sec), dst).
+
+(* ... continued from the remembered level [belief] and the device [s] an earlier part left *)
+Definition run_calls_from (factor : nat) (stop : bool) (tries : nat) (t : table) (order cls : list (list nat))
+  (cs : list call_cfg) (belief : option nat) (s : sim) : list (outcome * option nat * sim * list line) :=
+  acquire_calls (length t) factor stop (parent_of t) (auth_of t) (order_nbrs order)
+                (fun m => nth m cls []) sim s_mode (map (call_of tries t) cs) belief s.
+
+Definition run_calls (factor : nat) (stop : bool) (tries : nat) (t : table) (order cls : list (list nat))
+  (cs : list call_cfg) (belief : option nat) (src : nat) : list (outcome * option nat * sim * list line) :=
+  run_calls_from factor stop tries t order cls cs belief (sim_start src).
 
 (* ------------------------------------------------------------------------------------------ *)
 (* the specification side: the route through the tree, computed without any search *)
@@ -487,3 +549,51 @@ Definition stale_ok (factor : nat) (stop : bool) (p : table * list (list nat) * 
              res_eqb (run_acquire factor stop (mkC t [] [] (fst pw) (snd pw)) order cls bel src dst)
                      (run_acquire factor stop (mkC t [] [] (fst pw) (snd pw)) order cls (Some src) src dst))
              (None :: map Some lv)) lv) lv) pw_variants.
+
+(* ------------------------------------------------------------------------------------------ *)
+(* a failed call does not spoil the next one: call 1 = acquire_priv(dst) from [src] against a device
+   refusing [stuck] / with password situation [pw] (any outcome); call 2 = acquire_priv(dst2), every
+   dst2, with the device cooperating and the right secret, continued from what call 1 left (by
+   definition of acquire_calls the second element of the two-call history).  Whenever call 1 FAILS (a
+   first call that succeeds is all_ok's case) and leaves the
+   device at the prompt of a level matched by that level only (no password dialogue pending), call 2
+   must end in [dst2] by exactly the route from where the device is, the device log extended by exactly
+   the route's lines *)
+Definition after_failure_ok (factor : nat) (stop : bool) (tries : nat) (t : table) (order cls : list (list nat))
+  (stuck : list (nat * nat)) (pw : option bytes * bytes) (src dst : nat) : bool :=
+  let good := match fst pw with Some x => x | None => snd pw end in
+  let exact := stop || blank good || match fst pw with Some _ => true | None => false end in
+  let vis := fun s : sim => if exact then s_log s else filter (fun e => negb (beq (snd e) good)) (s_log s) in
+  match run_calls factor stop tries t order cls [(stuck, fst pw, snd pw, dst)] (Some src) src with
+  | [(o1, b1, s1, tr1)] =>
+      (length tr1 <=? factor * length t + 1) && negb (outcome_eqb o1 OutOfFuel) && negb (outcome_eqb o1 Crash)
+      && (if outcome_eqb o1 Reached
+             || match s_dialog s1 with Some _ => true | None => false end
+             || negb (nat_list_eqb (nth (s_mode s1) cls []) [s_mode s1])
+          then true     (* [if]: evaluated lazily by vm_compute *)
+          else forallb (fun dst2 =>
+               match run_calls_from factor stop tries t order cls [([], fst pw, good, dst2)] b1 s1 with
+               | [(o2, b2, s2, tr2)] =>
+                   let r := route_of t (s_mode s1) dst2 in
+                   outcome_eqb o2 Reached && oeqb b2 (Some dst2) && (s_mode s2 =? dst2) && lines_eqb tr2 r
+                   && log_eqb (vis s2) (vis s1 ++ route_log t (s_mode s1) r)
+               | _ => false
+               end) (seq 0 (length t)))
+  | _ => false
+  end.
+
+(* (attempts the password dialogue gives, password situation): the number of attempts only matters
+   when a password is rejected *)
+Definition history_variants : list (nat * (option bytes * bytes)) :=
+  map (fun pw => (3, pw)) pw_variants
+  ++ map (fun pw => (1, pw)) (filter (fun pw => match fst pw with Some x => negb (beq x (snd pw)) | None => false end) pw_variants).
+
+Definition history_ok (factor : nat) (stop : bool) (p : table * list (list nat) * list (list nat) * nat) : bool :=
+  let '(t, cls, order, root) := p in
+  let lv := seq 0 (length t) in
+  let run := fun stuck (v : nat * (option bytes * bytes)) =>
+    forallb (fun src => forallb (fun dst =>
+      after_failure_ok factor stop (fst v) t order cls stuck (snd v) src dst) lv) lv in
+  (* nothing refused: every password situation; one refused transition: password right / not asked *)
+  forallb (run []) history_variants
+  && forallb (fun e => forallb (run [e]) (firstn 2 history_variants)) (edges_of t).
